@@ -125,7 +125,13 @@ def work(task):
         if k not in cache:
             if len(cache) > 50000:
                 cache.clear()
-            cache[k] = AEV(thr, sw, ch, use_channel=sel)
+            # the documented default (None) written by omission for every other threshold, and positionally for 'mix'
+            if sel is None and int(thr * 2) % 2 == 0:
+                cache[k] = AEV(thr, sw, ch)
+            elif sel == "mix":
+                cache[k] = AEV(thr, sw, ch, sel)
+            else:
+                cache[k] = AEV(thr, sw, ch, use_channel=sel)
         return cache[k]
 
     # selection errors (once per task)
@@ -374,6 +380,7 @@ def through_split(rep, widths=(1, 2, 4)):
     common.import_auditok()
     from auditok import core
 
+    core.plot = lambda *a, **k: None  # split_and_plot / splitp: split, draw (stubbed out), return the regions
     rate = 10
     for sw in widths:
         for ch in (1, 2):
@@ -398,7 +405,7 @@ def through_split(rep, widths=(1, 2, 4)):
                             kw["eth" if short else "energy_threshold"] = thr
                         if sel is not None:
                             kw["uc" if short else "use_channel"] = sel
-                        for how in ("function", "method", "validator"):
+                        for how in ("function", "method", "validator", "splitp"):
                             if how == "validator" and thr is None:
                                 continue
                             rep.add("evaluations")
@@ -406,7 +413,11 @@ def through_split(rep, widths=(1, 2, 4)):
                             rep.add("distinct_nontrivial", int(exp))
                             try:
                                 if how == "validator":
-                                    regs = [data] if lib()["AEV"](thr, sw, ch, use_channel=sel).is_valid(data) else []
+                                    v_ = lib()["AEV"](thr, sw, ch) if sel is None else lib()["AEV"](thr, sw, ch, use_channel=sel)
+                                    regs = [data] if v_.is_valid(data) else []
+                                elif how == "splitp":
+                                    k2 = {k: v for k, v in kw.items() if k not in ("sr", "sw", "ch")}
+                                    regs = list(core.AudioRegion(data, rate, sw, ch).split_and_plot(show=False, **k2))
                                 elif how == "function":
                                     regs = list(core.split(data, **kw))
                                 else:
